@@ -309,8 +309,10 @@ func (p *Proc) extraPages() []int {
 // OutOfScope names the reason why Model L (fixed item->page partition, no slot-level B-tree state) does not cover
 // this run; such cases are judged by the direct oracle only. "" = in scope.
 //   structure-change : a transaction created B-tree nodes (split / new root)
-//   successor-alias  : a remove hit an item of an inner node: the tree swaps in the in-order successor (the item
-//                      changes page) and the tracker registers the successor
+//   inner-remove     : a remove hit an item of an inner node: the tree moves the in-order successor up into that
+//                      node, i.e. an item changes page
+//   successor-alias  : (legacy, before repo commit a8e6b837) on top of that the tracker registered the SUCCESSOR as
+//                      the removed item
 //   slot-alias       : a transaction that added/removed an item and tracks other items too went through a
 //                      refetch: the tracker's item pointers alias the node's slot array, which the add/remove shifted
 func (o *Outcome) OutOfScope() string {
@@ -329,6 +331,9 @@ func (o *Outcome) OutOfScope() string {
 			k := p.Prog.Ops[i].Kind
 			if r.Alias != 0 && !p.Aborted {
 				return "successor-alias"
+			}
+			if r.Inner && r.OK && !p.Aborted {
+				return "inner-remove"
 			}
 			if r.OK && (k == "rm" || ((k == "add" || k == "addne" || k == "ups") && r.Item >= 1000)) {
 				structural = true
